@@ -559,7 +559,14 @@ mod huffman {
             let mut prev_level = 0;
             let mut encode = BTreeMap::new();
             let mut decode = Decode::map();
+            // A lone symbol sits at the root of the tree. Give it a one-bit code so that
+            // every symbol occupies at least one bit; both one-bit patterns decode to it.
+            let lone = levels.len() == 1;
             for (level, sym) in levels {
+                let level = if lone { 1 } else { level };
+                if lone {
+                    Self::insert_decode(&mut decode, sym, level, 1 << 63);
+                }
                 if prev_level != level {
                     code <<= level - prev_level;
                     prev_level = level;
